@@ -101,12 +101,17 @@ int main(int argc, char** argv) {
     rc = code;
   } else if (verdict.compare(0, 4, "dies") == 0) {
     // the command is terminated by a signal of its own (a crashing compiler, the OOM killer)
-    int sig = SIGKILL, touch = 0;
-    sscanf(verdict.c_str(), "dies %d %d", &sig, &touch);
+    int sig = SIGKILL, touch = 0, core = 0;
+    sscanf(verdict.c_str(), "dies %d %d %d", &sig, &touch, &core);
     if (touch) for (auto& o : s.outs) WriteAll(o, "GARBAGE from failed " + s.id() + "\n");
     fflush(stdout);
     if (ctl) Touch(string(ctl) + "/done." + id);
     struct rlimit rl = {0, 0};
+    if (core) {
+      // a crashing tool where core dumps are enabled: the wait status then carries the "core dumped" bit
+      getrlimit(RLIMIT_CORE, &rl);
+      rl.rlim_cur = rl.rlim_max;
+    }
     setrlimit(RLIMIT_CORE, &rl);
     signal(sig, SIG_DFL);
     raise(sig);
